@@ -3,7 +3,7 @@
 (* M2 for C20, value laws on pairs: TLC prints, for a sequence of abstract *)
 (* Go values PG (depth <= 1), one JSON line per index i with the Soy value *)
 (* V[i] the default conversion yields, its truthiness and text, and the    *)
-(* row eq of the equality matrix: eq[j] = "t" / "f" / "u" is what          *)
+(* row eq of the equality matrix (a sequence): eq[j] = "t" / "f" / "u" is what          *)
 (* V[i].Equals(V[j]) must return ("u": no claim beyond symmetry).  The     *)
 (* harness builds the real Go values, converts them once each, and pushes  *)
 (* all pairs of the real results through Equals.  i = j is the same        *)
@@ -16,20 +16,20 @@ TagsFirst == [g |-> "g", t |-> "t"]
 
 CONSTANTS Size, Part, NParts     \* this run prints rows i with i % NParts = Part
 
-VARIABLE i
+\* pg and vv are constants of the run kept in the state: TLC re-evaluates a
+\* definition at every use, a state variable is evaluated once.
+VARIABLES i, pg, vv
 
-PG == SetToSeq(PairSource(Size))
-V == [j \in 1..Len(PG) |-> Convert(PG[j], DefaultOpts, Rd0)]
+Eq(j, k) == IF j = k /\ vv[j].t \in {"list", "map"} THEN "t" ELSE EqualsD(vv[j], vv[k])
 
-Eq(j, k) == IF j = k /\ V[j].t \in {"list", "map"} THEN "t" ELSE EqualsD(V[j], V[k])
+Row(j) == [k \in 1..Len(pg) |-> Eq(j, k)]
 
-RECURSIVE Row(_, _)
-Row(j, k) == IF k > Len(PG) THEN "" ELSE Eq(j, k) \o Row(j, k + 1)
+Init == /\ pg = SetToSeq(PairSource(Size))
+        /\ vv = [j \in 1..Len(pg) |-> Convert(pg[j], DefaultOpts, Rd0)]
+        /\ i \in {j \in 1..Len(pg) : j % NParts = Part}
+Next == UNCHANGED <<i, pg, vv>>
 
-Init == i \in {j \in 1..Len(PG) : j % NParts = Part}
-Next == UNCHANGED i
-
-Emit == PrintT(ToJson([i |-> i, n |-> Len(PG), g |-> PG[i], v |-> V[i], truthy |-> TruthyD(V[i]),
-                       text |-> IF PrintableD(V[i]) THEN [ok |-> TRUE, s |-> TextD(V[i], TRUE)] ELSE [ok |-> FALSE],
-                       eq |-> Row(i, 1)]))
+Emit == PrintT(ToJson([i |-> i, n |-> Len(pg), g |-> pg[i], v |-> vv[i], truthy |-> TruthyD(vv[i]),
+                       text |-> IF PrintableD(vv[i]) THEN [ok |-> TRUE, s |-> TextD(vv[i], TRUE)] ELSE [ok |-> FALSE],
+                       eq |-> Row(i)]))
 =============================================================================
